@@ -298,7 +298,7 @@ template<int N, class T> static void misc_query_n(Rng& g) {
             mat i(T(1)); i[pos / N][pos % N] += d; query_sq<N, T>(i, eps);                     // nearly identity
         }
         // signed permutations, rotations with Pythagorean entries, unimodular shears
-        for (int k = 0; k < (thorough ? 30 : 3); ++k) {
+        for (int k = 0; k < (thorough ? 32 : 4); ++k) {
             int p[4] = {0, 1, 2, 3};
             for (int i = N - 1; i > 0; --i) { int j = (int)g.below(i + 1); int t = p[i]; p[i] = p[j]; p[j] = t; }
             mat s(T(0));
@@ -310,6 +310,10 @@ template<int N, class T> static void misc_query_n(Rng& g) {
             r[a] = ca; r[b] = cb; query_sq<N, T>(r, eps);
             mat sh = s; sh[a] += s[b]; query_sq<N, T>(sh, eps);                                    // shear: columns no longer orthogonal
             mat sc = s; sc[a] *= (T(1) + eps * T(k % 3 + 1)); query_sq<N, T>(sc, eps);             // one column too long
+            // unit columns that are almost orthogonal: dot(a, b) = t * eps on either side of the threshold (0.5, 0.75, 1.5, 3)
+            static const int tn[] = {1, 3, 3, 3}, td[] = {2, 4, 2, 1};
+            mat no = s; no[b] += s[a] * (eps * T(tn[k % 4]) / T(td[k % 4])); query_sq<N, T>(no, eps);
+            mat nt = glm::transpose(no); query_sq<N, T>(nt, eps);                                  // the same between rows
             mat rr = rmat<N, N, T>(g); query_sq<N, T>(rr, eps);
         }
     }
